@@ -14,7 +14,9 @@ import datetime as _dtm
 import os
 import shutil
 import struct
+import sys
 import tempfile
+import types
 
 from .. import values as V
 
@@ -179,6 +181,8 @@ def gen_cases(rng, tier):
             d = descs[0] if len(descs) == 1 or not r.chance(25) else descs[1]
             recs.append(_gen_rec(r, d))
         cases.append({"kind": "seq", "recs": recs, "stop": not r.chance(30)})
+        if r.chance(12):
+            cases[-1]["stdout"] = True
     # wall clocks that occur twice (the hour repeated when a zone's clocks go back): fold selects the instant
     DF = ["t/fold", [["datetime", "ts"], ["string", "s"]]]
     for wall, zone in (([2020, 10, 25, 2, 30, 0, 0], "Europe/Amsterdam"), ([2021, 11, 7, 1, 30, 0, 5], "America/New_York"),
@@ -316,19 +320,33 @@ def run_real(case):
             obs["declared"] = [[_val(V.build(v)) if (v[0] == "dt" and v[2] != "naive") or
                                 v[0] in ("none", "bool", "int", "float", "str", "bytes") else None for v in spec[2]]
                                for spec in case["recs"]]
-            w = RecordWriter("avro://" + path)
-            for rec in recs:
-                try:
-                    w.write(rec)
-                    obs["errs"].append(None)
-                except Exception as e:
-                    obs["errs"].append(_err(e))
-                    if case["stop"]:
-                        break
+            old_stdout, fake_buf = sys.stdout, None
+            if case.get("stdout"):
+                # the container goes to standard output (`avro://-`), which the writer leaves open: a plain close() still
+                # has to push every buffered record out
+                class _Buf(io.BytesIO):
+                    pass
+                fake_buf = _Buf()
+                sys.stdout = types.SimpleNamespace(buffer=fake_buf, write=lambda x: None, flush=lambda: None)
             try:
-                w.close()
-            except Exception as e:
-                obs["close"] = _err(e)
+                w = RecordWriter("avro://-" if case.get("stdout") else "avro://" + path)
+                for rec in recs:
+                    try:
+                        w.write(rec)
+                        obs["errs"].append(None)
+                    except Exception as e:
+                        obs["errs"].append(_err(e))
+                        if case["stop"]:
+                            break
+                try:
+                    w.close()
+                except Exception as e:
+                    obs["close"] = _err(e)
+            finally:
+                sys.stdout = old_stdout
+            if fake_buf is not None:
+                with open(path, "wb") as fp:
+                    fp.write(fake_buf.getvalue() if not fake_buf.closed else b"")
             try:
                 with open(path, "rb") as fp:
                     rd = fastavro.reader(fp)
@@ -592,6 +610,8 @@ def classify(case, obs):
         out.append("schema:" + ("refused" if "error" in obs else f"fields={min(len(case['desc'][1]), 3)}"))
     elif k == "seq":
         out.append("seq:stop" if case["stop"] else "seq:continue")
+        if case.get("stdout"):
+            out.append("seq:to-stdout")
         for e in obs.get("errs", []):
             out.append("seq:write:" + ("ok" if e is None else e["cls"]))
         for rec in case["recs"]:
